@@ -106,6 +106,14 @@ def build(case) -> Built:
         el2.external_torque = external_torque_2
     apply_initial_conditions(b)
     b.powertrain = Powertrain(motor=b.motor)
+    if case.get('deepcopy'):
+        # the user copies the assembled design (copy.deepcopy, as the library's own tests do) and simulates the copy;
+        # the original stays alive and untouched
+        import copy
+        b.original = b.powertrain
+        b.powertrain = copy.deepcopy(b.powertrain)
+        b.elements = list(b.powertrain.elements)
+        b.motor, b.last = b.elements[0], b.elements[-1]
     b.rules = []
     b.control = build_control(b) if case.get('control') is not None else None
     b.stop = build_stop(b) if case.get('stop') else None
